@@ -1,5 +1,6 @@
 """C15 Bloom filter (DESIGN.md section 5 C15; A6)."""
 import bloom_rules as B
+import generic_lints
 
 
 def run(facts, tier):
@@ -11,6 +12,7 @@ def run(facts, tier):
         ("compatibility", B.compat, 3, "set operations are dominated by the compatibility check"),
         ("bit operations", B.bitops, 3, "union/intersect/invert combine every byte and count the result byte on every iteration"),
         ("overload siblings", B.overload_siblings, 20, "update(T), query(T), query_and_update(T) canonicalise and hash identically"),
+        ("duplicate operands", lambda fa: generic_lints.duplicate_conjuncts(fa, ('filters/',)), 2, "no logical chain tests the same operand twice (copy-paste of the wrong peer)"),
     ):
         o = f(facts)
         obs += o
